@@ -10,7 +10,108 @@ use crate::rng::{Choices, mix};
 use crate::world::*;
 use std::panic::{AssertUnwindSafe, catch_unwind};
 
+/// The call that would exceed the declared total is refused — and the encode is abandoned right there.
+/// Whatever that call put on the medium before failing is part of "the bytes already written": a
+/// complete frame among them that no decoder will ever deliver (the header still says the declared
+/// total) is a completely written frame that is not recovered.
+fn run_overfill(ctx: &mut Ctx) -> R {
+    use flac_codec::encode::FlacSampleWriter;
+    use std::mem::ManuallyDrop;
+    let ch = ctx.ch.clone();
+    let mut cfg = draw_cfg(&ch, true);
+    cfg.block = 16 + ch.draw("c14o.block", 80) as u16;
+    cfg.declare_total = true;
+    cfg.offset = 0;
+    let blocks = 1 + ch.draw("c14o.blocks", 3) as usize;
+    let frames = blocks * cfg.block as usize + *ch.pick("c14o.rem", &[0usize, 1, 7]) ;
+    let pcm = draw_pcm(&ch, cfg.channels, cfg.bps, frames);
+    let surplus_frames = cfg.block as usize * (1 + ch.draw("c14o.surplus", 2) as usize);
+    let surplus = draw_pcm(&ch, cfg.channels, cfg.bps, surplus_frames);
+    ctx.describe(|| format!("over-filled then abandoned encode {} declared frames={} surplus frames={}", cfg.describe(), frames, surplus_frames));
+    probe("c14_overfill_then_crash");
+    let file = ctx.disk.create(Vec::new());
+    let sink = ctx.disk.open(file, Benign::none());
+    let res = catch_unwind(AssertUnwindSafe(|| {
+        let mut w = ManuallyDrop::new(FlacSampleWriter::new(sink, cfg.options(), cfg.rate, cfg.bps, cfg.channels, Some(pcm.inter.len() as u64)).map_err(|e| format!("{e:?}"))?);
+        w.write(&pcm.inter).map_err(|e| format!("{e:?}"))?;
+        // the surplus: refused, or accepted into a buffer — either way the process dies now
+        let r = w.write(&surplus.inter);
+        Ok::<bool, String>(r.is_err())
+    }));
+    let refused = match res {
+        Ok(Ok(x)) => x,
+        Ok(Err(e)) => {
+            ctx.skip_foreign(format!("encode failed before the over-fill: {e}"));
+            return Ok(());
+        }
+        Err(_) => {
+            let (loc, msg) = take_panic().unwrap_or_default();
+            let v = crate::classify_panic(&loc, &msg);
+            return viol(v.class, format!("writing beyond the declared total panicked: {msg}"));
+        }
+    };
+    if refused {
+        probe("c14_overfill_refused");
+    }
+    let medium = ctx.disk.data(file);
+    // the finished twin of the declared part tells where the legitimate frames are
+    let mut cur = std::io::Cursor::new(Vec::new());
+    {
+        let Ok(mut w) = FlacSampleWriter::new(&mut cur, cfg.options(), cfg.rate, cfg.bps, cfg.channels, Some(pcm.inter.len() as u64)) else {
+            ctx.skip_foreign("twin failed");
+            return Ok(());
+        };
+        if w.write(&pcm.inter).is_err() || w.finalize().is_err() {
+            ctx.skip_foreign("twin failed");
+            return Ok(());
+        }
+    }
+    let twin = cur.into_inner();
+    let Ok(rs) = refflac::parse_stream(&twin, 0) else {
+        ctx.skip_foreign("refflac cannot parse the twin");
+        return Ok(());
+    };
+    let last_end = rs.frames.last().map(|f| f.end).unwrap_or(rs.meta.audio_start);
+    // frames of the declared part that are on the medium
+    let mut complete = 0usize;
+    for f in &rs.frames {
+        if f.end <= medium.len() && medium[f.start..f.end] == twin[f.start..f.end] {
+            complete += f.block_size as usize * cfg.channels as usize;
+        } else {
+            break;
+        }
+    }
+    let d = decode_all(std::io::Cursor::new(&medium), RKind::SampleToEnd, &ch, cfg.block as usize);
+    let nt = true;
+    ctx.eval(1, nt);
+    if d.samples != pcm.inter[..complete.min(pcm.inter.len())] {
+        return viol(
+            "crash-prefix-undecodable",
+            format!("over-filled, abandoned encode: {} samples of the declared part are completely on the medium, the decoder delivered {} ({:?})", complete, d.samples.len(), d.err),
+        );
+    }
+    // a complete frame beyond the declared part?
+    if medium.len() > last_end && complete == pcm.inter.len() {
+        if let Ok(f) = refflac::parse_frame(&medium, last_end, Some(&rs.meta.si)) {
+            if f.end <= medium.len() {
+                return viol(
+                    "crash-prefix-undecodable",
+                    format!(
+                        "over-filled, abandoned encode: the refused call left a complete, checksum-valid frame of {} samples at byte {} of the medium (after the {} declared samples); the header declares the total, so no decoder delivers it (decoder: {} samples, {:?})",
+                        f.block_size, last_end, pcm.inter.len(), d.samples.len(), d.err
+                    ),
+                );
+            }
+        }
+        probe("c14_overfill_left_partial_bytes");
+    }
+    Ok(())
+}
+
 pub fn run(ctx: &mut Ctx) -> R {
+    if ctx.ch.draw("c14.overfill", 8) == 7 {
+        return run_overfill(ctx);
+    }
     let ch = ctx.ch.clone();
     let mut cfg = draw_cfg(&ch, true);
     cfg.block = 16 + ch.draw("c14.block", 80) as u16;
